@@ -141,6 +141,19 @@ add("C19",
     "Larger key sets are scripted, not exhaustive. libc trusted; allocation failure not injected.",
     "DESIGN.md 2/C19", engine="enumerator")
 
+add("C06", EXPL.replace("all schedules and environment-deviation patterns", "errno faults at every data-path call and connect outcome, peer death at every byte offset of the wire/TLS stream, x all schedules and deviation patterns"),
+    "FAULT: two endpoints exchange 2+2 messages; every data-path call x {ECONNRESET, ETIMEDOUT, EHOSTUNREACH, ENETUNREACH, EPIPE}, three scripts "
+    "deciding whether send, receive or finish meets the fault, every other call then issued twice (stickiness). CONN: every connect outcome and a "
+    "silent peer until tcp.connect_timeout, reported at once or after latency. CLOSE: orderly close with messages queued, first met by "
+    "receive/send/finish, with and without a pending frame; client closing before the server finished its handshake. RAW: a raw peer cut at "
+    "every byte offset (three frames 0-18, a 65535-byte frame at the boundary offsets, a byte stream; for TLS an OpenSSL raw peer whose whole "
+    "output - handshake flights, tickets, records - is cut at every offset), FIN or reset, XCM as client and as server. tcp, tls, btcp, btls, "
+    "utls->TLS; ux/uxf for the close clauses. The oracle knows which errno was injected in which call and whether a close was a FIN or a reset. "
+    "quick: single faults (+1 deviation on tcp/btcp and close), 70,750 executions; thorough: D=2 everywhere, D=3 tcp/btcp, 1,136,378 executions.",
+    "EPIPE is the closed class; once an explicit send/finish reported the end both 'drain then 0' and 'nothing succeeds' are accepted; a close "
+    "during which the environment refused the closer's writes counts as a break; a raw TLS truncation may supersede a closed-class report once by "
+    "EPROTO; OpenSSL swallowing ECONNRESET/EPIPE at the ticket flush is INFO. Non-blocking sockets only. Emulated TCP.", "DESIGN.md 2/C06",
+    category="fault_enumeration")
 add("C07",
     "exhaustive input enumeration: every byte stream of a finite wire-format space, in every segmentation of a stated set and every "
     "ending, fed by a raw peer to a real XCM endpoint (ASan+UBSan) and compared with a reference frame decoder; a forked child per batch "
